@@ -130,6 +130,9 @@ def rule_graceful(eng, rep):
         gs = guards_of(cfg, s)
         first = any(a.op == "is" and isinstance(a.lhs, ast.Name) and a.lhs.id == "exit_info" and is_none(a.rhs) for (_b, a) in gs)
         site = eng.where(solve, st)
+        if not first and not any(s2 != s and cfg.path_avoiding(s2, s, []) is not None for s2 in sites):
+            rep.ok(rule, site, "no earlier input-error assignment can reach this one (exclusive branch of an if/elif chain, or the first check): nothing is overwritten")
+            continue
         if first:
             rep.ok(rule, site, "assignment guarded by `exit_info is None` (first error wins)")
         else:
@@ -648,6 +651,15 @@ def rule_unknown_key(eng, rep):
                 rep.ok(rule, eng.where(solve, ci.node), "user key applied through ParameterList.__call__ outside any try")
     if not applied:
         rep.bad(rule, eng.where(solve), "solver.solve|user-params-not-applied", "user_params entries are not applied through ParameterList.__call__")
+    # ... and as given: the dictionary the caller passed is neither re-bound nor are its keys transformed (documented keys are case-sensitive)
+    scfg = eng.cfg(solve)
+    if "user_params" in solve.all_params:
+        redefs = [n for n in scfg.g.nodes if n != scfg.entry and "user_params" in scfg.defs_of(n)[0]]
+        if redefs:
+            st = scfg.ast_of(redefs[0])
+            rep.bad(rule, eng.where(solve, st), "solver.solve|user-params-rebound", "`%s` replaces the caller's parameter dictionary before it is applied: a key that is valid as documented can become an unknown one (ValueError)" % short(st, 60))
+        else:
+            rep.ok(rule, eng.where(solve), "user_params is applied as passed (never re-bound)")
 
 
 def _raised_name(r):
@@ -948,8 +960,19 @@ def rule_shapes_validated_before_arithmetic(eng, rep, rule="C07-2b.user-arrays-a
                 heads = [m for m in cfg.nodes_of_kind("cond") if cfg.stmt_of(m) is stmt]
                 return min(heads)
             after_rows = all(cfg.dominates(if_head(c), n) and if_head(c) != n and not (cfg.stmt_of(c) is cfg.stmt_of(n)) for c in need)
+            if not after_rows:
+                # semantic form: every path to this node has evaluated the row's test or has recorded an input error on the way
+                # (arms of an if/elif chain: `exit_info is None` afterwards means no arm was taken, i.e. every test of the chain was false)
+                err_sites = [m for m, dd in cfg.g.nodes(data=True) if dd["kind"] == "stmt" and isinstance(dd["ast"], ast.Assign) and ekey(dd["ast"].targets[0]) == "exit_info"
+                             and "EXIT_INPUT_ERROR" in ekey(dd["ast"].value)]
+                after_rows = all(c != n and cfg.stmt_of(c) is not cfg.stmt_of(n) and cfg.path_avoiding(cfg.entry, n, [c] + err_sites) is None for c in need)
             gs = [a for (_b, a) in guards_of(cfg, n)]
             live = any(a.op == "is" and ekey(a.lhs) == "exit_info" and is_none(a.rhs) for a in gs)
+            # or: reached only through the 'shapes agree' outcome of each needed row (e.g. a later arm of the same if/elif chain)
+            agree = all(any((bnode == c) and a.op == "eq" for (bnode, a) in guards_of(cfg, n)) for c in need)
+            if agree:
+                rep.ok(rule, site, "`%s` is reached only through the 'same shape' outcome of the shape tests" % short(sub, 40), nontrivial=False)
+                continue
             if after_rows and live:
                 rep.ok(rule, site, "`%s` combines %s and %s after their shape rows, under `exit_info is None`" % (short(sub, 40), pair[0], pair[1]), nontrivial=False)
             else:
@@ -957,6 +980,40 @@ def rule_shapes_validated_before_arithmetic(eng, rep, rule="C07-2b.user-arrays-a
                         "`%s` combines the caller's arrays %s and %s %s: for bounds whose shape differs from x0 NumPy raises a broadcasting ValueError out of solve instead of the input-error flag"
                         % (short(sub, 40), pair[0], pair[1], "before their shapes were validated" if not after_rows else "although an input error may already have been recorded (not under `exit_info is None`)"))
     rep.require_count(rule, "element-wise operations combining two user arrays in solve", nops, 3)
+
+
+# --------------------------------------------------------------------------------------------- C07-3b
+def rule_gap_row_in_the_coordinates_of_rhobeg(eng, rep, rule="C07-3b.bound-gap-is-tested-in-the-coordinates-rhobeg-is-measured-in"):
+    """rhobeg is a radius in the solver's internal variables.  With scaling_within_bounds those are the scaled variables, so the test `min(xu - xl) < 2*rhobeg`
+    must read the bounds *after* they went through apply_scaling: every definition of the two bound vectors reaching the test is an apply_scaling(...) assignment."""
+    solve = eng.fn("solver.solve")
+    cfg = eng.cfg(solve)
+    n = 0
+    for c in cfg.nodes_of_kind("cond"):
+        t = cfg.ast_of(c)
+        at = atom_of(t, True)
+        if at.op not in ("lt", "le") or "rhobeg" not in mentions(at.rhs) | mentions(at.lhs):
+            continue
+        side = at.lhs if "rhobeg" in mentions(at.rhs) else at.rhs
+        diffs = [x for x in ast.walk(side) if isinstance(x, ast.BinOp) and isinstance(x.op, ast.Sub) and isinstance(x.left, ast.Name) and isinstance(x.right, ast.Name)]
+        if not diffs:
+            continue
+        n += 1
+        site = eng.where(solve, t)
+        bad = []
+        for nm in (diffs[0].left, diffs[0].right):
+            for dn in cfg.defs_reaching(nm, nm.id):
+                st = cfg.ast_of(dn)
+                scaled = isinstance(st, ast.Assign) and isinstance(st.value, ast.Call) and id(st.value) in eng.res.calls and any(tt.fid == "util.apply_scaling" for tt in eng.res.calls[id(st.value)].targets)
+                if not scaled:
+                    bad.append((nm.id, st))
+        if bad:
+            rep.bad(rule, site, "solver.solve|gap-row-before-scaling|%s" % bad[0][0],
+                    "`%s` reads `%s` as defined by `%s`, i.e. before the internal scaling: with scaling_within_bounds the physical width is compared with a radius in scaled units "
+                    "(too-narrow boxes are accepted, valid ones rejected)" % (short(t, 50), bad[0][0], short(bad[0][1], 40) if bad[0][1] is not None else "the parameter"))
+        else:
+            rep.ok(rule, site, "`%s` reads both bound vectors as returned by apply_scaling" % short(t, 50))
+    rep.require_count(rule, "gap rows (bounds difference compared with rhobeg)", n, 1)
 
 
 # --------------------------------------------------------------------------------------------- C07-13
@@ -1299,7 +1356,8 @@ def rule_definite_assignment(eng, rep, rule="C07-11.locals-are-assigned-before-u
     """A local that is read on a path on which it was never assigned raises UnboundLocalError in the middle of a solve.  Every such
     (function, variable) pair must be in the frozen, confirmed-by-reading table; anything else is reported."""
     reach = eng.reachable_from_solve()
-    okset = dict(((f, v), r) for (f, v, r) in tables.MAYBE_UNDEFINED_OK)
+    okset = dict(((row[0], row[1]), row[2]) for row in tables.MAYBE_UNDEFINED_OK)
+    premises = dict(((row[0], row[1]), row[3]) for row in tables.MAYBE_UNDEFINED_OK if len(row) > 3)
     seen_ok = set()
     nuse = 0
     for fid in sorted(reach):
@@ -1326,7 +1384,9 @@ def rule_definite_assignment(eng, rep, rule="C07-11.locals-are-assigned-before-u
         for node in eng.prog.own_nodes(fi):
             if not (isinstance(node, ast.Name) and isinstance(node.ctx, ast.Load) and node.id in locs and node.id not in inner):
                 continue
-            if eng.res.scope_of(fi, node.id) is not fi or node.id in flagged:
+            if eng.res.scope_of(fi, node.id) is not fi:
+                continue
+            if node.id in flagged and (fid, node.id) not in premises:
                 continue
             try:
                 n = cfg.cfg_node(node)
@@ -1340,8 +1400,26 @@ def rule_definite_assignment(eng, rep, rule="C07-11.locals-are-assigned-before-u
                 p = _path_avoiding_first_iteration_aware(cfg, cfg.entry, n, [x for x in defnodes.get(node.id, []) if x != n])
             if p is None:
                 continue
+            first = node.id not in flagged
             flagged.add(node.id)
             site = eng.where(fi, node)
+            if (fid, node.id) in premises:
+                gs = [a_ for (_b, a_) in guards_of(cfg, n)]
+                missing = []
+                for (kind, what, want) in premises[(fid, node.id)]:
+                    if kind == "isnot":
+                        okp = any(a_.op == "isnot" and ekey(a_.lhs) == what and is_none(a_.rhs) for a_ in gs)
+                    else:
+                        okp = any(a_.op == ("truth" if want else "false") and isinstance(a_.lhs, ast.Call) and param_key(eng, a_.lhs) == what for a_ in gs)
+                    if not okp:
+                        missing.append(what)
+                if missing:
+                    rep.bad(rule, site, "%s|maybe-unassigned-read-outside-its-premise|%s" % (fid, node.id),
+                            "local `%s` is assigned on some paths only; the confirmed exception holds for reads under %s, but this read is not guarded by %s (UnboundLocalError)"
+                            % (node.id, [w for (_k, w, _v) in premises[(fid, node.id)]], missing), path=cfg.describe_path(p)[-8:])
+                    continue
+            if not first:
+                continue
             if (fid, node.id) in okset:
                 seen_ok.add((fid, node.id))
                 rep.note(rule, site, "`%s` is assigned on some paths only -- confirmed safe: %s" % (node.id, okset[(fid, node.id)]))
@@ -1383,6 +1461,7 @@ def run(eng, rep):
     rule_restart_geometry_loop_in_range(eng, rep)
     rule_coordinate_precondition_established(eng, rep)
     rule_shapes_validated_before_arithmetic(eng, rep)
+    rule_gap_row_in_the_coordinates_of_rhobeg(eng, rep)
     rule_internal_param_updates(eng, rep)
     rule_definite_assignment(eng, rep)
     from . import c20
